@@ -306,12 +306,20 @@ func TestVerifFallbackChild(t *testing.T) {
 		offs, _, _ := cp.Load()
 		o, _ := offs.Load(1)
 		t.Logf("Load returned: vb 1 resumes at %+v", o)
-	case "open-one-fails", "open-one-fails-socket-closed", "open-one-fails-stream-closed", "open-one-fails-shutdown", "open-one-fails-temporary", "open-one-fails-busy", "open-one-fails-timeout":
-		cl := &vfFailOneClient{fail: 1, err: map[string]error{"open-one-fails": errors.New("open failed"), "open-one-fails-socket-closed": gocbcore.ErrSocketClosed, "open-one-fails-stream-closed": gocbcore.ErrDCPStreamClosed, "open-one-fails-shutdown": gocbcore.ErrShutdown, "open-one-fails-temporary": gocbcore.ErrTemporaryFailure, "open-one-fails-busy": gocbcore.ErrBusy, "open-one-fails-timeout": gocbcore.ErrTimeout}[mode]}
+	case "open-one-fails", "open-one-fails-rollback", "open-one-fails-socket-closed", "open-one-fails-stream-closed", "open-one-fails-shutdown", "open-one-fails-temporary", "open-one-fails-busy", "open-one-fails-timeout":
+		cl := &vfFailOneClient{fail: 1, err: map[string]error{"open-one-fails": errors.New("open failed"), "open-one-fails-rollback": gocbcore.DCPRollbackError{SeqNo: 5}, "open-one-fails-socket-closed": gocbcore.ErrSocketClosed, "open-one-fails-stream-closed": gocbcore.ErrDCPStreamClosed, "open-one-fails-shutdown": gocbcore.ErrShutdown, "open-one-fails-temporary": gocbcore.ErrTemporaryFailure, "open-one-fails-busy": gocbcore.ErrBusy, "open-one-fails-timeout": gocbcore.ErrTimeout}[mode]}
 		s := newReplayStream(ids, &vfConsumer{}, &vfMetadata{}, &cl.vfClient)
 		s.client = cl
 		s.openAllStreams(ids)
 		t.Logf("openAllStreams returned although vb 1 could not be opened")
+	case "open-position-missing":
+		// the loaded positions cover only part of the assignment (a checkpoint file written under another
+		// assignment, a custom backend): the assigned vBucket without a position cannot be requested - fatal
+		cl := &vfClient{}
+		s := newReplayStream(ids, &vfConsumer{}, &vfMetadata{}, cl)
+		s.offsets.Delete(1)
+		s.openAllStreams(ids)
+		t.Logf("openAllStreams returned although assigned vb 1 has no position to resume from (requested: %v)", cl.opened)
 	}
 }
 
@@ -348,7 +356,7 @@ func TestVerifFallbackLoadAheadIsFatal(t *testing.T) {
 
 // Property C15: one assigned vBucket that cannot be opened stops the client.
 func TestVerifFallbackOpenFailureIsFatal(t *testing.T) {
-	for _, mode := range []string{"open-one-fails", "open-one-fails-socket-closed", "open-one-fails-stream-closed", "open-one-fails-shutdown", "open-one-fails-temporary", "open-one-fails-busy", "open-one-fails-timeout"} {
+	for _, mode := range []string{"open-position-missing", "open-one-fails", "open-one-fails-rollback", "open-one-fails-socket-closed", "open-one-fails-stream-closed", "open-one-fails-shutdown", "open-one-fails-temporary", "open-one-fails-busy", "open-one-fails-timeout"} {
 		if died, out := runChild(t, mode); !died {
 			t.Errorf("VIOLATION C15: %s: a vBucket stream that cannot be opened did not stop the client: %.300s", mode, out)
 		}
